@@ -479,7 +479,24 @@ class Env:
             self._set(sb, "create_storage_backend", lambda p: sb.LocalStorageBackend(p))
         elif self.rig == "S":
             self.s3 = FakeS3(w)
-            self._bump_epoch_on(self.s3, ("put_object", "delete_object"))
+            # a lock poller can only observe APPLIED changes: failed conditional PUTs do not wake sleepers
+            _put, _del = self.s3.put_object, self.s3.delete_object
+
+            def put_object(**kw):
+                n = len(self.s3.put_log)
+                try:
+                    return _put(**kw)
+                finally:
+                    if len(self.s3.put_log) != n:
+                        w.epoch += 1
+
+            def delete_object(**kw):
+                try:
+                    return _del(**kw)
+                finally:
+                    w.epoch += 1
+
+            self.s3.put_object, self.s3.delete_object = put_object, delete_object
             self._set(sb, "create_storage_backend", lambda p: env.s3_backend(p))
             self._set(dops.DataFileManager, "_get_arrow_filesystem",
                       lambda self_: ("fake-arrow-s3fs" if isinstance(self_.storage, sb.S3StorageBackend) else None))
